@@ -479,6 +479,11 @@ class HeapInterp:
             return False
         if isinstance(st, (ast.FunctionDef, ast.ClassDef, ast.Import, ast.ImportFrom, ast.Global, ast.Nonlocal)):
             return False
+        if isinstance(st, ast.Match):
+            from .model import desugar_match
+            d = desugar_match(st)
+            if d is not None:
+                return self.stmt(d, env, fr, pc)
         raise AnalysisError(f"reader interpreter: statement {type(st).__name__} at {fi.loc(st)} not supported")
 
     def _widen_counters(self, loop, env):
